@@ -79,4 +79,39 @@ theorem thomas_row (l d u v : Nat → α) (m i : Nat) (hi : i + 1 < m)
   rw [ey0, ey1, hbet] at hy'
   linear_combination hy' - x l d u v m (i + 2) * (hg' - (hbet ▸ rfl : gam l d u v (i + 2) * bet l d u v (i + 1) = gam l d u v (i + 2) * (d (i + 1) - l (i + 1) * gam l d u v (i + 1))))
 
+theorem bet_zero (l d u v : Nat → α) : bet l d u v 0 = d 0 := rfl
+theorem y_zero (l d u v : Nat → α) : y l d u v 0 = v 0 / d 0 := rfl
+
+/-- first row (system with at least two rows) -/
+theorem thomas_first (l d u v : Nat → α) (m : Nat) (hm : 0 < m) (hb : ∀ j, j ≤ m → bet l d u v j ≠ 0) :
+    d 0 * x l d u v m 0 + u 0 * x l d u v m 1 = v 0 := by
+  have e0 := x_step l d u v m 0 hm
+  have hg := gam_succ l d u v 0
+  have hb0 : d 0 ≠ 0 := by have := hb 0 (by omega); rwa [bet_zero] at this
+  rw [e0, y_zero, hg, bet_zero]
+  field_simp
+  ring
+
+/-- the only row of a one-row system -/
+theorem thomas_single (l d u v : Nat → α) (hb : bet l d u v 0 ≠ 0) : d 0 * x l d u v 0 0 = v 0 := by
+  rw [x_last, y_zero]
+  have hb0 : d 0 ≠ 0 := by rwa [bet_zero] at hb
+  field_simp
+
+/-- last row (system with at least two rows) -/
+theorem thomas_last (l d u v : Nat → α) (m : Nat) (hm : 0 < m) (hb : ∀ j, j ≤ m → bet l d u v j ≠ 0) :
+    l m * x l d u v m (m - 1) + d m * x l d u v m m = v m := by
+  obtain ⟨k, rfl⟩ : ∃ k, m = k + 1 := ⟨m - 1, by omega⟩
+  have e0 := x_step l d u v (k + 1) k (by omega)
+  have e1 := x_last l d u v (k + 1)
+  have hy := y_succ l d u v k
+  have hbet := bet_succ l d u v k
+  have hb1 := hb (k + 1) (by omega)
+  have hy' : y l d u v (k + 1) * bet l d u v (k + 1) = v (k + 1) - l (k + 1) * y l d u v k := by
+    rw [hy]; field_simp
+  simp only [Nat.add_sub_cancel]
+  rw [e0, e1]
+  rw [hbet] at hy'
+  linear_combination hy'
+
 end Fs.Thomas
